@@ -4,4 +4,4 @@ Require Import Tokenizer Symbols Lines Inst CodeTags Phases Report WriteBack Spl
 Require Extraction.
 Require Import ExtrOcamlBasic.
 Extraction Language OCaml.
-Extraction "model.ml" vsg_create vsg_read get_lines fix_blank_lines fix_trailing_whitespace kind_code kind_of_code mk stamp has_code_tag violation_suppressed ct check_rules fix_events filter_fix_only fixed_violations mkrule table_rows total sev_counts junit_rows file_status summary_ok_by_type summary_ok exit_status quality_critical write_vhdl_file create_backup apply_rules_fs judge normalise coarse to_tok kinds_ok mkatok n_roles run_c01 run_c02_eq run_c02_sub n_lines index line_of_index configure_rules merge_configs get_configuration mkrobj mksec.
+Extraction "model.ml" vsg_create vsg_read get_lines fix_blank_lines fix_trailing_whitespace kind_code kind_of_code mk stamp has_code_tag violation_suppressed ct check_rules fix_events filter_fix_only fixed_violations mkrule table_rows total sev_counts junit_rows file_status summary_ok_by_type summary_ok exit_status quality_critical write_vhdl_file create_backup apply_rules_fs judge normalise coarse to_tok kinds_ok mkatok n_roles shape_ok glue_free run_c01 run_c02_eq run_c02_sub n_lines index line_of_index configure_rules merge_configs get_configuration mkrobj mksec.
